@@ -453,9 +453,17 @@ func (obj *Real32) UnmarshalJSON(data []byte) error {
       obj.Alloc(n, 2)
       obj.Derivative = make([]float32, n)
       obj.Hessian = r.Hessian
+    } else {
+      // no derivatives in the document: they are all zero
+      obj.ResetDerivatives()
     }
     return nil
   } else {
-    return json.Unmarshal(data, &obj.Value)
+    // a plain number stands for a scalar whose derivatives are all zero
+    if err := json.Unmarshal(data, &obj.Value); err != nil {
+      return err
+    }
+    obj.ResetDerivatives()
+    return nil
   }
 }
